@@ -99,5 +99,7 @@ def run(ctx):
     ctx.guarded("C02.ctrlarms", lambda c: cv.arms_rule(c, "C02", "cbor"))
     ctx.guarded("C02.root", lambda c: cv.root_rule(c, "C02", "cbor"))
     ctx.guarded("C02.ctrlrestore", lambda c: cv.ctrlrestore_rule(c, "C02", "cbor"))
+    import c10
+    ctx.guarded("C02.ledger", lambda c: c10.r_ledger(c, rid="C02.ledger"))
     ctx.guarded("C02.width", width_rule)
     ctx.guarded("C02.major", major_rule)
